@@ -233,6 +233,11 @@ class C16(Prop):
         # (a NEW resolver would see the new registration: that is the documented registry, not claimed here)
         w.add("val", impl.CLS[4]({"properties": {"p": {"$ref": "http://verif.test/meta-fixed#"}}}),
               "Draft4Validator instance with an unresolvable reference")
+        # ... and one that has not done anything yet: what it does when first used (after later registrations) must be
+        # what its twin, used at once, did
+        lazy_schema = {"properties": {"p": {"$ref": "http://verif.test/meta-fixed#"}}, "type": "object"}
+        lazy = impl.CLS[7](copy.deepcopy(lazy_schema))
+        lazy_expected = probe_validator(impl.CLS[7](copy.deepcopy(lazy_schema)))
         parents = {}
         fresh_ids = 0
         for n, st_ in enumerate(case["steps"]):
@@ -377,6 +382,11 @@ class C16(Prop):
             res.evals += len(w.objs)
             if len(res.failures) > before:
                 return
+        got = probe_validator(lazy)
+        if got != lazy_expected:
+            idx = [i for i, (a, b) in enumerate(zip(got, lazy_expected)) if a != b][:2]
+            res.fail(("unused-validator-object-changed",), "a validator created before the history and first used after "
+                     "it: probe indices %r, %r instead of %r" % (idx, str(got[idx[0]])[:100], str(lazy_expected[idx[0]])[:100]))
         res.nontrivial = any(v >= 2 for v in parents.values()) or len(case["steps"]) >= 4
         return
 
